@@ -70,14 +70,19 @@ fn gen_output(rng: &mut Rng, must_match_early: bool) -> Vec<u8> {
 
 pub fn gen_workload(sub: u64) -> Workload {
     let mut rng = Rng::new(sub);
-    let kind = match rng.below(12) {
+    let kind = match rng.below(15) {
         0..=3 => "pre",
         4 => "pre-glob-negated",
         5..=6 => "pre-glob",
         7..=8 => "zstub",
         9 => "zreal",
         10 => "pre-missing",
-        _ => "pre-notexec",
+        11 => "pre-notexec",
+        // flag interplay: a --pre-glob without --pre must not disturb -z; of
+        // --pre and -z the one given last wins
+        12 => "zstub+pre-glob-only",
+        13 => "zstub-after-pre",
+        _ => "pre-after-z",
     }
     .to_string();
     let early = rng.chance(1, 3) && kind != "zreal";
@@ -98,12 +103,12 @@ pub fn gen_workload(sub: u64) -> Workload {
     for i in 0..nf {
         let dir = if rng.chance(1, 3) { "sub/" } else { "" };
         let through_child = match kind.as_str() {
-            "pre-glob" | "pre-glob-negated" | "zstub" | "zreal" => rng.chance(2, 3),
+            "pre-glob" | "pre-glob-negated" | "zstub" | "zreal" | "zstub+pre-glob-only" | "zstub-after-pre" => rng.chance(2, 3),
             _ => true,
         };
         let ext = match (kind.as_str(), through_child) {
             ("pre-glob", true) | ("pre-glob-negated", true) => "sel",
-            ("zstub", true) => ["gz", "bz2", "xz"][rng.below(3)],
+            ("zstub", true) | ("zstub+pre-glob-only", true) | ("zstub-after-pre", true) => ["gz", "bz2", "xz"][rng.below(3)],
             ("zreal", true) => {
                 // only tools that exist on this machine (gzip is part of the base system)
                 let have: Vec<&str> = ["gz", "bz2", "xz"].into_iter().filter(|e| std::path::Path::new(real_tool(e).1).exists()).collect();
@@ -264,6 +269,20 @@ pub fn run_workload(sub: u64, acc: &mut Acc, ctx: &Ctx, _thorough: bool) {
             path_prefix = Some("/root/miniconda/bin".into());
             args.push("-z".into());
         }
+        "zstub+pre-glob-only" | "zstub-after-pre" | "pre-after-z" => {
+            let bin = scratch.join("bin");
+            let _ = std::fs::create_dir_all(&bin);
+            for t in ["gzip", "bzip2", "xz"] {
+                let _ = std::fs::remove_file(bin.join(t));
+                std::os::unix::fs::symlink(STUB, bin.join(t)).unwrap();
+            }
+            path_prefix = Some(bin.display().to_string());
+            match w.kind.as_str() {
+                "zstub+pre-glob-only" => args.extend(["-z".into(), "--pre-glob".into(), "*.gz".into()]),
+                "zstub-after-pre" => args.extend(["--pre".into(), "/nonexistent/never-used".into(), "--pre-glob".into(), "*.gz".into(), "-z".into()]),
+                _ => args.extend(["-z".into(), "--pre".into(), STUB.into()]),
+            }
+        }
         "pre-missing" => args.extend(["--pre".into(), "/nonexistent/preprocessor".into()]),
         "pre-notexec" => {
             let p = scratch.join("notexec");
@@ -272,10 +291,13 @@ pub fn run_workload(sub: u64, acc: &mut Acc, ctx: &Ctx, _thorough: bool) {
         }
         _ => {}
     }
+    let harmless = gen_harmless_flags(&mut Rng::new(sub ^ 0xF1A6), &["-i", "-S"]);
+    args.extend(harmless.iter().cloned());
     args.extend(["foo".into(), "w".into()]);
     let spec = RunSpec { args, env, path_prefix, ..RunSpec::default() };
     // shadow run: plain rg over exactly the scripted bytes
     let mut sargs = base.clone();
+    sargs.extend(gen_harmless_flags(&mut Rng::new(sub ^ 0xF1A6), &["-i", "-S"]));
     sargs.extend(["foo".into(), "w".into()]);
     let shadow_spec = RunSpec { args: sargs, ..RunSpec::default() };
     // files that contribute nothing: spawn failures and children that fail before output
